@@ -95,10 +95,10 @@ def r_apply(sh, rep):
         calls.sort(key=lambda c: (c["s"][2], c["s"][3]))
         args = [sh.nsrc(EV, c["args"][0]) for c in calls]
         if "V1V2" in p:
-            want = ["datum", "redeemer.data.clone()", "script_context.to_plutus_data()"]
-            rep.check(args == want, "R19-APPLY", "do_eval_redeemer#V1V2#datum-redeemer-context", sh.loc(EV, a), "a V1/V2 script must be applied to datum (if any), then redeemer, then script context; found %s" % args, sample={"applied": args})
+            roles = ["datum" if "datum" in a_ and "to_plutus_data" not in a_ and "redeemer" not in a_ else "redeemer" if "redeemer" in a_ and "to_plutus_data" not in a_ else "context" if "to_plutus_data" in a_ else "?" for a_ in args]
+            rep.check(roles == ["datum", "redeemer", "context"], "R19-APPLY", "do_eval_redeemer#V1V2#datum-redeemer-context", sh.loc(EV, a), "a V1/V2 script must be applied to datum (if any), then redeemer, then script context; found %s" % args, sample={"applied": args})
         elif "V3" in p:
-            rep.check(args == ["script_context.to_plutus_data()"], "R19-APPLY", "do_eval_redeemer#V3#context-only", sh.loc(EV, a), "a V3 script takes the script context only; found %s" % args, sample={"applied": args})
+            rep.check(len(args) == 1 and "to_plutus_data" in args[0], "R19-APPLY", "do_eval_redeemer#V3#context-only", sh.loc(EV, a), "a V3 script takes the script context only; found %s" % args, sample={"applied": args})
 
 
 def r_thread(sh, rep):
@@ -106,20 +106,25 @@ def r_thread(sh, rep):
     evals = [c for c in walk(f["body"]) if c["k"] == "MethodCall" and c["m"].startswith("eval") and sh.nsrc(EV, c["recv"]) == "program"]
     if len(evals) < 4:
         raise AnchorMissing("four program.eval* calls in do_eval_redeemer")
+    bp = [i_["pat"]["name"] for i_ in f["sig"]["inputs"] if "ExBudget" in str(i_.get("ty", "")) and i_.get("pat", {}).get("k") == "Ident"]
+    if not bp:
+        raise AnchorMissing("a parameter of type ExBudget in do_eval_redeemer")
+    bname = bp[0]
     for i, c in enumerate(evals):
         args = [sh.nsrc(EV, a) for a in c["args"]]
-        ok = any(a in ("Some(initial_budget)", "*initial_budget", "initial_budget", "initial_budget.clone()", "Some(&initial_budget)") for a in args)
-        rep.check(ok, "R19-THREAD", "do_eval_redeemer#%s#%d#budget-is-the-callers" % (c["m"], i), sh.loc(EV, c), "`program.%s(%s)` does not receive the caller's budget (initial_budget): this redeemer is evaluated against a fresh default budget, so it can succeed although the budget left by earlier redeemers (or given by the user) is exhausted, and `succeeds iff it fits the budget` fails" % (c["m"], ", ".join(args)), sample={"args": args})
+        ok = any(re.fullmatch(r"(Some\()?[&*]?%s(\.clone\(\))?\)?" % re.escape(bname), a) for a in args)
+        rep.check(ok, "R19-THREAD", "do_eval_redeemer#%s#%d#budget-is-the-callers" % (c["m"], i), sh.loc(EV, c), "`program.%s(%s)` does not receive the caller's budget (the ExBudget parameter): this redeemer is evaluated against a fresh default budget, so it can succeed although the budget left by earlier redeemers (or given by the user) is exhausted, and `succeeds iff it fits the budget` fails" % (c["m"], ", ".join(args)), sample={"args": args})
     o = _outer(sh)
     for c in walk(o["body"]):
         if c["k"] == "Call" and call_name(c) == "do_eval_redeemer":
             args = [sh.nsrc(EV, a) for a in c["args"]]
-            rep.check(len(args) > 1 and args[1] == "initial_budget", "R19-THREAD", "eval_redeemer#passes-budget#%s" % (re.search(r"PlutusV\d", "".join(args)) or [""])[0], sh.loc(EV, c), "do_eval_redeemer must be given initial_budget as its budget argument")
+            rep.check(len(args) > 1 and re.fullmatch(r"[&*]?\w+", args[1]) is not None and "ExBudget::default" not in args[1], "R19-THREAD", "eval_redeemer#passes-budget#%s" % (re.search(r"PlutusV\d", "".join(args)) or [""])[0], sh.loc(EV, c), "do_eval_redeemer must be given initial_budget as its budget argument")
     g = find_fn(sh.file(TX), "eval_phase_two_with_override_and_optional_protocol")
     for c in walk(g["body"]):
         if c["k"] == "Call" and (call_name(c) or "").startswith("eval::eval_redeemer"):
             args = [sh.nsrc(TX, a) for a in c["args"]]
-            rep.check("&remaining_budget" in args, "R19-THREAD", "loop#%s#gets-remaining-budget" % last(call_name(c)), sh.loc(TX, c), "%s is not evaluated against &remaining_budget" % call_name(c))
+            rb = [st["pat"]["name"] for st in walk(g["body"]) if st["k"] == "Local" and st["pat"]["k"] == "Ident" and st["pat"].get("mut") and st.get("init") is not None and "budget" in sh.nsrc(TX, st["init"])]
+            rep.check(bool(rb) and ("&" + rb[0]) in args, "R19-THREAD", "loop#%s#gets-remaining-budget" % last(call_name(c)), sh.loc(TX, c), "%s is not evaluated against the loop's remaining budget (`&%s`)" % (call_name(c), rb[0] if rb else "?"))
 
 
 def r_budget(sh, rep):
@@ -140,7 +145,11 @@ def r_budget(sh, rep):
             decs[sh.nsrc(TX, n["l"])] = (sh.nsrc(TX, n["r"]), n)
         if n["k"] == "AssignOp" and n.get("op") == "-=":
             decs[sh.nsrc(TX, n["l"])] = (sh.nsrc(TX, n["r"]), n)
-    want = {"remaining_budget.cpu": "%s.ex_units.steps" % evaluated, "remaining_budget.mem": "%s.ex_units.mem" % evaluated}
+    rbs = [st["pat"]["name"] for st in walk(g["body"]) if st["k"] == "Local" and st["pat"]["k"] == "Ident" and st["pat"].get("mut") and st.get("init") is not None and "budget" in sh.nsrc(TX, st["init"])]
+    if not rbs:
+        raise AnchorMissing("let mut <remaining budget> = .. in the redeemer loop's function")
+    rbn = rbs[0]
+    want = {"%s.cpu" % rbn: "%s.ex_units.steps" % evaluated, "%s.mem" % rbn: "%s.ex_units.mem" % evaluated}
     for lhs, rhs in want.items():
         got = decs.get(lhs)
         ok = got is not None and got[0].startswith(rhs)
@@ -149,7 +158,7 @@ def r_budget(sh, rep):
     pushes = [c for c in walk(body) if c["k"] == "MethodCall" and c["m"] == "push"]
     okp = pushes and sh.nsrc(TX, pushes[0]["args"][0]) == "(%s,%s)" % (evaluated, result)
     rep.check(bool(okp), "R19-BUDGET", "loop#reports-the-evaluated-redeemer", sh.loc(TX, pushes[0]) if pushes else sh.loc(TX, loops[0]), "the loop must report (%s, %s), the pair returned by the evaluation" % (evaluated, result))
-    init = [st for st in walk(g["body"]) if st["k"] == "Local" and st["pat"]["k"] == "Ident" and st["pat"]["name"] == "remaining_budget"]
+    init = [st for st in walk(g["body"]) if st["k"] == "Local" and st["pat"]["k"] == "Ident" and st["pat"]["name"] == rbn]
     rep.check(bool(init) and "initial_budget" in sh.nsrc(TX, init[0]["init"]), "R19-BUDGET", "loop#starts-from-callers-budget", sh.loc(TX, init[0]) if init else sh.loc(TX, g), "remaining_budget must start from the caller's initial_budget")
 
 
